@@ -15,7 +15,7 @@ use quick_xml::{
 };
 
 use crate::{
-    message::{xmlns, ReadError, ReadXml, WriteError, WriteXml},
+    message::{read_text, xmlns, ReadError, ReadXml, WriteError, WriteXml},
     Error,
 };
 
@@ -62,7 +62,7 @@ impl ReadXml for Capabilities {
                 (ResolveResult::Bound(ns), Event::Start(tag))
                     if ns == xmlns::BASE && tag.local_name().as_ref() == b"capability" =>
                 {
-                    let span = reader.read_text(tag.to_end().name())?;
+                    let span = read_text(reader, tag.to_end().name())?;
                     tracing::debug!(?span, "parsing capability");
                     _ = inner.insert(span.trim().parse()?);
                 }
